@@ -302,6 +302,18 @@ func applyHostile(w *world.World, kind string) (applied bool) {
 			}
 		}
 		alt := 8 + (weakest.ParamID-8+1)%11
+		for tries := 0; tries < 11; tries++ {
+			clash := false
+			for _, p := range w.Spec.PACE {
+				if p.Suite == weakest.Suite && p.ParamID == alt {
+					clash = true // that info is genuinely listed in DG14: it would not be a downgrade
+				}
+			}
+			if !clash {
+				break
+			}
+			alt = 8 + (alt-8+1)%11
+		}
 		oid := chip.PaceOID(weakest.Suite, false)
 		w.Pers.PACE = []chip.PaceSupport{{OID: oid, Suite: weakest.Suite, ParamID: alt}}
 		w.MF[chip.FidCardAccess] = chip.EncTLV(0x31, lds.PACEInfo(oid, alt))
